@@ -1730,8 +1730,9 @@ def gen_tracked_circuit(rng, width, ncmds, opts=None):
                             nw.used = True
                             table[a] = nw
                         r.pool.append(nw)
-                    elif isinstance(a, int):
-                        # the index now names a port the node does not have: given up right away
+                    elif isinstance(a, int) and table[a] is not None and a not in args[pos + 1:]:
+                        # the index now names a port the node does not have: given up right away (an index given
+                        # twice is judged at its LAST position, the one the rebinding loop leaves it at)
                         g.emit(["untrack_wire", t, a])
                         table[a] = None
         elif x < 0.68:
